@@ -59,6 +59,18 @@ def recorded_index(cx):
                 g = cx.pg(c.fn)
                 okb = okb or g.dominated_by_block(b.at, lambda bi, c=c: bi == c.block)
         cx.check(okb, key + ":probe", "registering a Safe read is followed by a heartbeat broadcast carrying that request's context", c)
+    # reads answered at once (single voter, lease) and reads released later hand out either the commit index
+    # or the index recorded with the request -- never anything else (last_index, persisted, applied ...)
+    hr = cx.fn("Raft::handle_ready_read_index")
+    nimm = 0
+    for c in callers_of(cx, hr):
+        args = call_args(cx, c)
+        idx, req = args[2], args[1]
+        imm = is_f(idx, "RaftLog.committed")
+        rel = idx[0] == "field" and idx[2] == "ReadIndexStatus.index" and req[0] == "field" and req[2] == "ReadIndexStatus.req" and idx[1] == req[1]
+        cx.check(imm or rel, cx.site_key(c, "read-index"), "a read is answered with raft_log.committed or with the (req, index) pair recorded at registration (found %s)" % show(idx)[:100], c)
+        nimm += 1
+    cx.check(nimm >= 2, "read-index:floor", "the sites answering reads were found")
     # what add_request stores
     a = cx.prog.A(ar)
     ok_idx = ok_req = ok_ack = False
